@@ -21,7 +21,7 @@ ASSUMPTIONS = [
     "ATTRIBUTE_UNRECOGNIZED / ATTRIBUTE_EXPECTED_ENUM with the attribute name as first detail",
     "fail-fast: any exception of the MetapypeRuleError family counts as 'raises for the first'",
 ]
-REQUIRED = ["nodes_below_a_real_parent", "domain_words_in_free_form_attributes", "validations_on_long_lived_node", "rule_table_unchanged_after_queries", "aliasing_probes", "assignments_valid", "assignments_invalid", "introspection_required_checked", "introspection_values_checked",
+REQUIRED = ["unlisted_words_in_enumerated_attributes", "nodes_below_a_real_parent", "domain_words_in_free_form_attributes", "validations_on_long_lived_node", "rule_table_unchanged_after_queries", "aliasing_probes", "assignments_valid", "assignments_invalid", "introspection_required_checked", "introspection_values_checked",
             "viol_required", "viol_unrecognized", "viol_enum"]
 EXHAUSTIVE = {"quick": True, "thorough": True}
 
@@ -364,6 +364,17 @@ def run_rule(ctx, rule_name, part=0, parts=1):
                 for w in domain.ATTRIBUTE_WORDS:
                     judge(ctx, rule_name, elements[n_cases % len(elements)], kids, table, [x for x in valid0 if x[0] != a] + [(a, w)])
                     ctx.count("domain_words_in_free_form_attributes")
+                    n_cases += 1
+        # enumerated attributes take the listed values and no others: not the other spellings of a truth value where "true"/"false" are
+        # listed, not the words of the domain that other attributes list, not a case variant
+        for a, spec in table.items():
+            if len(spec) > 1:
+                for w in dict.fromkeys(["1", "0", "yes", "no", "TRUE", "True", "False", "t", "f", "on", "off", "Y", "N"] + domain.ATTRIBUTE_WORDS
+                                       + [v.upper() for v in spec[1:]] + [v.capitalize() for v in spec[1:]] + [v + "s" for v in spec[1:]]):
+                    if w in spec[1:]:
+                        continue
+                    judge(ctx, rule_name, elements[n_cases % len(elements)], kids, table, [x for x in valid0 if x[0] != a] + [(a, w)])
+                    ctx.count("unlisted_words_in_enumerated_attributes")
                     n_cases += 1
         # values that only differ from a listed one by white space around (or inside) them are not listed
         valid = [(a, spec[1] if len(spec) > 1 else "v") for a, spec in table.items() if spec[0] is True]
